@@ -305,8 +305,13 @@ class KaniCrate:
             pretty, mangled = m.group(1), m.group(2)
             for rx, bound in rules:
                 if re.search(rx, pretty):
-                    entries.append("%s:%d" % (mangled, bound))
+                    entries.append("%s:%d" % (mangled, bound))  # recursion bound
+                    if bound > 1:
+                        entries += ["%s.%d:%d" % (mangled, k, bound) for k in range(4)]  # loops of that function
                     break
+        for rx, bound in rules:
+            if rx == "^memcmp$":
+                entries.append("memcmp.0:%d" % bound)
         return ",".join(sorted(set(entries))) if entries else None
 
     def run(self, harness, timeout, mem_gb=12, extra=None, cbmc_args=None, unwind_rules=None):
